@@ -285,10 +285,13 @@ def concurrent_first_use(rec, rng, n):
             ad = Map(rules).bind("h.com", "/app", url_scheme="https")
             results = {}
             barrier = threading.Barrier(2)
+            stagger = rng.choice([0.0, 0.001, 0.002, 0.003, 0.004])
 
             def worker(i):
                 out = []
                 barrier.wait()
+                if i:
+                    time.sleep(stagger)  # arrive while the other thread is inside Map.update
                 for p in (["/index.html", "/old/7"] if i == 0 else ["/old/7", "/index.html"]):
                     try:
                         ad.match(p)
